@@ -7,10 +7,31 @@
 #include "lib/upipe/ubuf_block_mem.c"
 #include "upipe/ubuf_block.h"
 
+#ifndef VERIF_REPLAY
+/* CBMC 6.11 has no library model for memchr (an undefined body returns a nondet pointer) */
+void *memchr(const void *s, int c, size_t n)
+{
+    const unsigned char *p = (const unsigned char *)s;
+    for (size_t i = 0; i < n; i++)
+        if (p[i] == (unsigned char)c)
+            return (void *)(p + i);
+    return NULL;
+}
+#endif
+
 #ifndef BLK_POOL_DEPTH
 #define BLK_POOL_DEPTH 0
 #endif
+/* BLK_STATIC_MGRS (default on): while the harness operates, both managers are "static" objects
+ * in Upipe's sense (refcount pointer NULL: use/release are no-ops), and get their refcount back
+ * for the teardown.  Manager lifetime is C01's subject; here it keeps every urefcount_release
+ * constant for symex -- otherwise, once states have been merged, CBMC explores the (recursive)
+ * manager destructors at every buffer free (measured: no verdict in 200 s vs seconds). */
+#ifndef BLK_STATIC_MGRS
+#define BLK_STATIC_MGRS 1
+#endif
 static struct umem_mgr *blk_umem_mgr;
+static struct urefcount *blk_umem_rc, *blk_mgr_rc;
 static struct ubuf_mgr *blk_mgr_new(int prepend, int append, int align, int align_offset)
 {
     if (blk_umem_mgr == NULL) {
@@ -20,14 +41,33 @@ static struct ubuf_mgr *blk_mgr_new(int prepend, int append, int align, int alig
     struct ubuf_mgr *mgr = ubuf_block_mem_mgr_alloc(BLK_POOL_DEPTH, BLK_POOL_DEPTH,
             blk_umem_mgr, prepend, append, align, align_offset);
     VASSUME(mgr != NULL);
+#if BLK_STATIC_MGRS
+    if (blk_umem_mgr->refcount != NULL) {
+        blk_umem_rc = blk_umem_mgr->refcount;
+        blk_umem_mgr->refcount = NULL;
+    }
+    blk_mgr_rc = mgr->refcount;
+    mgr->refcount = NULL;
+#endif
     return mgr;
 }
 static void blk_mgr_done(struct ubuf_mgr *mgr)
 {
+#if BLK_STATIC_MGRS
+    mgr->refcount = blk_mgr_rc;
+    blk_umem_mgr->refcount = blk_umem_rc;   /* the block manager releases its umem manager */
+#endif
     ubuf_mgr_release(mgr);
+#if BLK_STATIC_MGRS
+    blk_umem_rc = blk_umem_mgr->refcount;
+    blk_umem_mgr->refcount = NULL;
+#endif
 }
 static void blk_umem_done(void)
 {
+#if BLK_STATIC_MGRS
+    blk_umem_mgr->refcount = blk_umem_rc;
+#endif
     umem_mgr_release(blk_umem_mgr);
     blk_umem_mgr = NULL;
 }
